@@ -124,6 +124,35 @@ int main(int argc, char **argv)
       roundtrip(id++, T, P, 0, rep % 3, key, seed, false, "ff-boundary");
     }
   }
+  else if (mode == "ivclass")
+  {
+    // seeds searched (with the code's own SHA-1) so that the FIRST IV ends in ..F9-FE / ..FF / ..FFFF: counters that
+    // carry within the first blocks of a file, through whatever path the pipeline increments them (per block or in bulk)
+    HashFactory hf;
+    for (int cls = 0; cls < 3; ++cls)
+    {
+      std::vector<u8_t> seed;
+      u8_t d[20];
+      for (int tries = 0; tries < 300000; ++tries)
+      {
+        std::string s = "ivc" + std::to_string(cls) + "-" + std::to_string(tries);
+        Hashmaster *hm = hf.getHasher(HashFactory::SHA1);
+        hm->getStringHash((const u8_t *)s.c_str(), s.size(), d);
+        delete hm;
+        bool ok = cls == 0 ? (d[15] >= 0xF9 && d[15] <= 0xFE) : cls == 1 ? d[15] == 0xFF : (d[15] == 0xFF && d[14] == 0xFF);
+        if (ok)
+        {
+          seed.assign(s.begin(), s.end());
+          break;
+        }
+      }
+      if (seed.empty())
+        continue;
+      const int S = iobuffer::sum;
+      for (int cm = 1; cm < 5; ++cm)
+        roundtrip(id++, T, wv_content(rng, 2 * S * T + S + 5, 1), cm, (cm + cls) % 3, rng.bytes(16), seed, false, cls == 0 ? "iv-ends-f9-fe" : cls == 1 ? "iv-ends-ff" : "iv-ends-ffff");
+    }
+  }
   else if (mode == "tails")
   {
     // plaintexts whose END looks like PKCS#7 padding (or like nothing at all): a decryptor that inspects more
